@@ -10,3 +10,8 @@ import Verif.Model.Transient
 import Verif.Spec.C18
 import Verif.Props.C18
 import Verif.Drv.Transient
+import Verif.Model.Slots
+import Verif.Model.Wheel
+import Verif.Model.Kernel
+import Verif.Model.Loop
+import Verif.Drv.Core
